@@ -102,8 +102,11 @@ SignedUnsignedPair(v1, v2) ==
   /\ LET d == WSub(v2, v1) IN
      IsPow2(d) /\ WLtU(v2, d) /\ ~WLtS(v1, WNeg(WShrL(d, 1)))
 
-Collides(p, q) == p.acc /\ q.acc /\ p.v # q.v /\ p.b = q.b
-Legit(p, q) == SignedUnsignedPair(p.v, q.v) \/ SignedUnsignedPair(q.v, p.v)
+\* operands are C ints: 4294967295 and -1 are the unsigned and the signed 32-bit spelling of
+\* one value, so values are compared after reduction to a signed 32-bit integer
+Canon(v) == WSext(WTrunc(v, 4), 8)
+Collides(p, q) == p.acc /\ q.acc /\ Canon(p.v) # Canon(q.v) /\ p.b = q.b
+Legit(p, q) == SignedUnsignedPair(Canon(p.v), Canon(q.v)) \/ SignedUnsignedPair(Canon(q.v), Canon(p.v))
 Injective(g) == \A i \in 1..Len(g.probes), j \in 1..Len(g.probes) :
                   (i < j /\ Collides(g.probes[i], g.probes[j])) => Legit(g.probes[i], g.probes[j])
 Colliding(g) == {<<i, j>> \in (1..Len(g.probes)) \X (1..Len(g.probes)) :
